@@ -16,6 +16,7 @@ import (
 var (
 	errEmptyInAnyOf                        = errors.New("canno have empty anyOf array")
 	errTooManyTypesForAdditionalProperties = errors.New("cannot support multiple types for additional properties")
+	errAllOfCycle                          = errors.New("cannot merge an allOf that refers to itself")
 )
 
 const float64Type = "float64"
@@ -862,6 +863,30 @@ func (g *schemaGenerator) generateAnyOfType(anyOf []*schemas.Type, scope nameSco
 }
 
 func (g *schemaGenerator) generateAllOfType(allOf []*schemas.Type, scope nameScope) (codegen.Type, error) {
+	for _, typ := range allOf {
+		if typ.Ref == "" {
+			continue
+		}
+
+		isCycle, cleanupCycle, cycleErr := g.detectCycle(typ)
+		if cycleErr != nil {
+			return nil, cycleErr
+		}
+
+		defer cleanupCycle()
+
+		if !isCycle {
+			continue
+		}
+
+		// Merging a definition into itself would never end.
+		if len(allOf) == 1 {
+			return g.generateTypeInline(typ, scope)
+		}
+
+		return nil, fmt.Errorf("%w: %s", errAllOfCycle, typ.Ref)
+	}
+
 	rAllOf, err := g.resolveRefs(allOf)
 	if err != nil {
 		return nil, err
